@@ -217,6 +217,31 @@ def NMem.stRun (n : NMem) (ops : List StOp) : NMem := ops.foldl NMem.stStep n
 
 def View.ofNMem (n : NMem) (g : Nat) : View := ⟨n.graph g, fun x => n.contains x g⟩
 
+/-- which position of the pattern holds the list of choices in `triples_choices` -/
+inductive Slot
+  | s | p | o
+  deriving Repr, DecidableEq
+
+/-- the pattern with `x` in the list's slot and `a`, `b` in the two other positions (in s, p, o order) -/
+def Slot.pat (sl : Slot) (a b x : Option Nat) : Pat :=
+  match sl with
+  | .s => (x, a, b)
+  | .p => (a, x, b)
+  | .o => (a, b, x)
+
+def Slot.get (sl : Slot) (t : Triple) : Nat :=
+  match sl with
+  | .s => t.1
+  | .p => t.2.1
+  | .o => t.2.2
+
+/-- `Store.triples_choices` (rdflib/store.py; `Memory` inherits it, `Graph.triples_choices` passes `context=self`):
+    `if choices: for x in choices: yield from self.triples(pattern with x)` `else: self.triples(pattern with None)`
+    (one list slot; two lists raise `ValueError` before anything is read) -/
+def NMem.triplesChoices (n : NMem) (sl : Slot) (choices : List Nat) (a b : Option Nat) (req : Ctx) : List Triple :=
+  if choices.isEmpty then n.triples (sl.pat a b none) req
+  else choices.flatMap (fun x => n.triples (sl.pat a b (some x)) req)
+
 /-! ### an open `Memory.triples()` generator over the nested dictionaries (the real copy discipline)
 
   The generator body starts at the first `next()`.  It copies ONE level of keys at a time
